@@ -555,6 +555,24 @@ lemma("vsum_real", [a], z3.Implies(isreal(a), vsum_im(a) == 0), [vsum_im(a)], "s
 lemma("isreal_dg", [a], z3.Implies(isreal(a), isreal(dg(a))), [dg(a)], "diagonal of a real matrix is real")
 lemma("trc_real", [a], z3.Implies(isreal(a), trc_im(a) == 0), [trc_im(a)], "trace of a real matrix is real")
 
+_GROUP[0] = 'inv'
+# ---- Moore-Penrose pseudo inverse (C16).  psolve(M) is the exact-arithmetic meaning of "CG started from 0 on the PSD matrix M"
+psolve = F("psolve", Mat, Mat)
+fullrow = F("fullrow", Mat, B)
+lemma("dim_psolve", [a], z3.And(rows(psolve(a)) == rows(a), cols(psolve(a)) == cols(a)), [psolve(a)], "definition")
+lemma("pinv_invok", [a], z3.Implies(invok(a), pinvm(a) == minv(a)), [pinvm(a)],
+      AS + "the inverse satisfies the four Penrose equations, which determine A^+ uniquely (Penrose 1955, Thm 1)")
+lemma("psolve_invok", [a], z3.Implies(invok(a), psolve(a) == minv(a)), [psolve(a)], "CG on a non-singular PSD system solves it (exact arithmetic, C12)")
+lemma("psolve_gram", [a], mmul(psolve(mmul(cj(tr(a)), a)), cj(tr(a))) == pinvm(a), [mmul(psolve(mmul(cj(tr(a)), a)), cj(tr(a)))],
+      AS + "CG started from 0 on the consistent PSD system A^H A x = A^H b converges to its minimum-norm solution, which is A^+ b "
+           "(Kammerer & Nashed 1972; (A^H A)^+ A^H = A^+, Ben-Israel & Greville, Ch.1 Ex.18)")
+lemma("psolve_gram_real", [a], z3.Implies(isreal(a), mmul(psolve(mmul(tr(a), a)), tr(a)) == pinvm(a)), [mmul(psolve(mmul(tr(a), a)), tr(a))],
+      AS + "same, real case")
+lemma("pinv_fullcol", [a], z3.Implies(fullcol(a), z3.And(invok(mmul(cj(tr(a)), a)), pinvm(a) == mmul(minv(mmul(cj(tr(a)), a)), cj(tr(a))))),
+      [[fullcol(a), pinvm(a)]], AS + "left inverse of a full-column-rank matrix (Ben-Israel & Greville, Thm 1.5)")
+lemma("invok_smul_intro", [x, y, a], z3.Implies(z3.And(invok(a), z3.Or(x != 0, y != 0)), invok(smul(x, y, a))), [[invok(a), smul(x, y, a)]], ML + "Matrix.det_smul / IsUnit.smul")
+lemma("pinv_eye", [n], pinvm(eye(n)) == eye(n), [pinvm(eye(n))], "I satisfies the Penrose equations for I")
+
 DEFAULT_GROUPS = ("dims", "ring", "tr", "inv", "det", "pred", "mixed", "fn", "diag")
 
 
